@@ -92,6 +92,19 @@ def run(ctx):
         blocking = [e for e in evs if re.match(r"^(Sender|BiChannelEndpoint)::send\(", e) or "blocking_send" in e or "blocking_lock" in e]
         ctx.check("C07-R2", "%s non-blocking" % h, not blocking, "Worker::%s uses a blocking queue operation: %s" % (h, blocking[:2]), f.at)
 
+    ctx.rule("C07-R5", "the worker's acceptor branches wait only for the acceptor: every per-stream read happens in a spawned task")
+    for name in ("accept_uni", "accept_bi", "accept_datagram"):
+        c = idx.find1(r"^wtransport::driver::worker::Worker::%s::\{closure#0\}$" % name)
+        res = idx.classify({"k": "cor", "did": c.path, "local": True}, "peer")
+        hits = [x for k, x in res if k == "hit"]
+        unk = [x for k, x in res if k == "unknown"]
+        ctx.check("C07-R5", "Worker::%s awaits no stream read" % name, not hits,
+                  "Worker::%s is polled by the worker's select loop and awaits %s: while one peer stream is silent or has sent only part of its "
+                  "preamble, no further stream of that kind is accepted" % (name, short_chain(hits[0]) if hits else ""), c.fn.at,
+                  key="Worker::%s awaits a peer-paced stream read" % name)
+        ctx.check("C07-R5", "Worker::%s fully classified" % name, not unk,
+                  "cannot decide: Worker::%s awaits an unclassified future %s" % (name, short_chain(unk[0]) if unk else ""), c.fn.at)
+
     ctx.rule("C07-R3", "Driver accept methods hold at most the guard of their own queue across a suspension")
     n = 0
     for name in ("accept_settings", "accept_uni", "accept_bi", "receive_datagram", "accept_session", "register_session", "result"):
